@@ -214,6 +214,10 @@ pub struct FaultStats {
 }
 
 impl FaultStats {
+    pub fn new_shared() -> Arc<FaultStats> {
+        Arc::new(FaultStats::default())
+    }
+
     pub fn reads(&self) -> u64 {
         self.reads.load(Ordering::SeqCst)
     }
@@ -292,6 +296,11 @@ impl<R> Faulty<R> {
 
     pub fn with_plan(inner: R, plan: Option<FaultPlan>) -> Self {
         Faulty { inner, plan, stats: Arc::new(FaultStats::default()) }
+    }
+
+    /// Like `with_plan`, counting into a caller-supplied handle (e.g. one that a progress callback also reads).
+    pub fn with_stats(inner: R, plan: Option<FaultPlan>, stats: Arc<FaultStats>) -> Self {
+        Faulty { inner, plan, stats }
     }
 
     /// Shared handle on the counters (stays valid after the stream was moved / dropped).
